@@ -185,7 +185,7 @@ META["C12"] = dict(
 
 META["C04"] = dict(
     level_text="Theorems (Lean): the model statistics are the textbook expressions (pooled, Welch-Satterthwaite, paired, one-sample) with the library's error checks in the library's order; swapping the samples negates the numerator and keeps the denominator and DoF; shifting and positive scaling leave T^2, sign and DoF unchanged. Correspondence: N1, N2, sign(T), T^2, DoF and the error kind of the real code against the exact rational model (tolerance scaled by the cancellation factors of the data); P against the closed-form Student-t CDF at integer DoF (interval enclosure built from proved-sound atan/sqrt/pi) and, for Welch's non-integer DoF, against the library's own t CDF at (T,DoF) (wiring); MeanCI: mean, symmetry and t-content of the interval equal to c.",
-    level_note="Trusted: Lean kernel, harness sampling, MV.I enclosures and the closed-form t CDF at integer DoF (MV.Special.tCDF, numerically cross-checked; its derivation is textbook and not formalised). Welch's non-integer DoF: P is compared with the general-parameter t CDF reference (Stirling lgamma + hypergeometric series of the incomplete beta function, MV.Special.tCDFgen), whose error terms are textbook bounds evaluated in interval arithmetic, not formalised.",
+    level_note="Trusted: Lean kernel, harness sampling, MV.I enclosures and the closed-form t CDF at integer DoF (MV.Special.tCDF, numerically cross-checked; its derivation is textbook and not formalised). Welch's non-integer DoF: P is compared with the general-parameter t CDF reference MV.Special.tCDFgen, which is proved to enclose the Student-t CDF defined as the integral of the density (C05StudentT.tCDFgen_encloses_cdf, built on the proved incomplete-beta and log-Gamma references of C08)",
     technique="Lean 4 proofs of the statistic identities + exact rational differential correspondence with closed-form t reference",
     rule="tt pooled|welch|paired|one x1 x2 mu0 alt, meanci xs c. 2..40 values per sample (small sizes 1/5; sizes 0/1 1/25 for the error cases), centres {0,1,100,-5000,1e5,999990}, spreads 2^-4..2^4, unequal variances, zero-variance samples, mismatched paired lengths, mu0 near and far, all three alternatives; swapped and shifted/scaled variants; a short paired test right after a long one; MeanCI at c in {0,1,-0.5,1.5,.5,.9,.95,.99,1e-6,1-1e-9,random}. non-trivial = every case not skipped",
     exhaustive_part="",
@@ -195,7 +195,7 @@ META["C04"] = dict(
 
 META["C05"] = dict(
     level_text="Theorems (Lean): the interval enclosures of the normal density and CDF are sound for every rational argument (MV.Proofs.Interval: phi_sound, Phi_sound, where Phi is defined as the Gaussian integral), so every NormalDist PDF/CDF value and every InvCDF round trip is decided against a certified reference (relative 1e-9 down to p=1e-300 through the enveloping tail series); DeltaDist is exact. Student t: PDF and CDF against closed forms at integer V (1..400), and the laws (range, monotone, symmetry, limits, non-negative density) for every real V in [0.1,1e4] evaluated on the code's outputs.",
-    level_note="Partial: the normal distribution is decided against proved enclosures. TDist at integer V uses closed forms, at other V the general reference (Stirling series for lgamma with its enveloping remainder, Gauss hypergeometric series for the incomplete beta function with a geometric tail bound); these reference formulas and their remainder bounds are textbook, evaluated in the proved interval arithmetic, cross-checked against the closed forms wherever both apply (clause reference-consistency), but not themselves formalised in Lean.",
+    level_note="The normal distribution is decided against proved enclosures (Phi defined as the Gaussian integral). TDist at every real V in range is decided against MV.Special.tCDFgen, proved to enclose the integral of the Student-t density over (-inf, t] (C05StudentT.studentT_cdf, tCDFgen_encloses_cdf; chain: fixed-point series loop -> real series -> incomplete beta integral -> substitution u = V/(V+s^2); log Gamma from the proved incomplete-gamma series). The integer-V closed forms are now only a cross-check (clause reference-consistency). Conditional on the series loops terminating within their fuel, which the driver checks per case. Partial only in that float rounding of the Go code is absorbed by the 1e-9 tolerance, not modelled",
     technique="Lean 4 certified interval reference (normal) + closed-form reference (t at integer V) + laws on outputs",
     rule="nd mu sigma pdf|cdf|inv|misc x: mu in +-{0,1,100,1e6}, sigma log-uniform 1e-6..1e6 (standard normal 1/4), z up to +-40 incl. 0, +-7, 37; p in (0,1): uniform, 10^-U(0,300), 1-10^-U(0,15), the branch points 0.02425, ends and outside; td V grid xs: V integer 1..40, {1,2,3,100,170,171,300,342,343,344,399,400}, or log-uniform real in [0.1,1e4], symmetric ascending grids with |x| from 1e-7 to 40; dd T pdf|cdf|inv x around the atom. non-trivial = every case",
     exhaustive_part="",
@@ -204,7 +204,7 @@ META["C05"] = dict(
 )
 META["C08"] = dict(
     level_text="Theorems (Lean): chooseFast = Nat.choose; the integer-parameter incomplete beta model is a polynomial in x with value 0 at 0 and 1 at 1; symmetry and complement identities on the slices. Correspondence: BetaInc against exact rational values at integer (a,b) and against the t-distribution closed form at (k/2,1/2) and (1/2,k/2); GammaInc/GammaIncComp against enclosures at integer and half-integer a; Choose (exact for n<=20, 1e-10 relative to 1000), Lchoose, Beta at integers, Sign; and for real parameters across the whole stated range the laws evaluated on the code's outputs: range, monotone in x on ascending dyadic grids, complement identity I_x(a,b)+I_(1-x)(b,a)=1 (1-x exact), 0/1 at the ends, NaN outside, P+Q=1; panics and non-convergence are failures.",
-    level_note="Partial: integer-parameter references are proved (betaIncR_eq_integral, gammaIncInt_sound, lchoose_sound). Elsewhere the reference is the general one (Stirling lgamma with enveloping remainder; hypergeometric / power series with geometric tail bound; one integration by parts for the far upper tail of GammaInc), evaluated in proved interval arithmetic and cross-checked against the proved closed forms on the slices (clause reference-consistency); the series identities and remainder bounds themselves are textbook and not formalised.",
+    level_note="References are proved end to end in Lean against Mathlib's Real.Gamma and interval integrals: GammaInc/GammaIncComp (C08LogGamma.gammaRegI_encloses_P: series loop invariant, series = integral by iterated integration by parts, far tail by a proved bound, log Gamma from the same series), BetaInc (C08BetaIdentity.betaRegIWith_encloses with C05StudentT.lbetaI_sound: hypergeometric series loop invariant, series = incomplete beta integral, reflection, B = Gamma Gamma/Gamma), integer-parameter closed forms, Lchoose. The half-integer closed forms and the Stirling enclosure are only cross-checks (clause reference-consistency). Conditional on the series loops terminating within their fuel, which the driver checks per case. Partial only in that float rounding of the Go code is absorbed by the stated tolerances, not modelled",
     technique="Lean 4 exact/closed-form references on rational slices + identities evaluated on outputs",
     rule="mx betagrid a b xs (a,b log-uniform in [0.05,300]; integers to 300; (k/2,1/2) slices; corners; x dyadic, ascending, incl. 0, 1, the mean a/(a+b), the branch switch (a+1)/(a+b+2) and its neighbours, 10^-U(0,12), 1-10^-U(0,12)); mx gammagrid a xs (a real / integer / half-integer; x at 0, a, a+1 and neighbours, lognormal around a, tiny, 1000; NaN cases); mx choose n k (all n<=70 quick / n<=1000 thorough with sampling above 60, out-of-range k); mx beta a b; mx sign x. non-trivial = every case",
     exhaustive_part="Choose/Lchoose: all (n,k) with n<=70 (thorough: n<=60 all, 1/4 sample to 1000)",
